@@ -35,6 +35,13 @@ def flatten(events, inst):
             evs = [x for x in (sc.get("ev1", "none"), sc.get("ev2", "none")) if x != "none"]
             out.append(rec(t="reset", site=sc.get("phase", "none"), evs=evs, n=int(sc.get("id", 0))))
             continue
+        if comp == "life" and ev == "end" and e.get("inst") != inst and inst is not None and "other" in e:
+            # the endpoint that did not initiate: judged after its own application has closed it at the end
+            o = e["other"]
+            out.append(rec(t="end", peer=o["peer"], reason=o["reason"], sig=o["sig"], x="-", site=o["final_peer"],
+                           n=int(o["dc_closes"]), m=int(o["api_hangs"]), b1=o["peer"] in ("Closed", "Failed"),
+                           b2=bool(o["dc_was_open"]), b3=bool(e.get("released")), b4=bool(e.get("hit"))))
+            continue
         if comp == "life" and ev == "end":
             out.append(rec(t="end", peer=e.get("peer", ""), reason=e.get("reason", ""), sig=e.get("final_sig", ""),
                            x=(e.get("peer2", "-") if e.get("second_close_called", True) else "-"),
